@@ -257,7 +257,8 @@ class PrimaiteGame:
         net = sim.network
 
         simulation_config = cfg.get("simulation", {})
-        defaults_config = cfg.get("defaults", {})
+        # (the shipped UC7 scenarios declare the block inside `simulation`, others at the top level)
+        defaults_config = {**(simulation_config.get("defaults") or {}), **(cfg.get("defaults") or {})}
         network_config = simulation_config.get("network", {})
         airspace_cfg = network_config.get("airspace", {})
         frequency_max_capacity_mbps_cfg = airspace_cfg.get("frequency_max_capacity_mbps", {})
@@ -389,8 +390,13 @@ class PrimaiteGame:
                 new_node.power_on()
 
             # set start up and shut down duration
-            new_node.config.start_up_duration = int(node_cfg.get("start_up_duration", 3))
-            new_node.config.shut_down_duration = int(node_cfg.get("shut_down_duration", 3))
+            # (the node's own option, else the defaults block, else 3)
+            new_node.config.start_up_duration = int(
+                node_cfg.get("start_up_duration", defaults_config.get("node_start_up_duration", 3))
+            )
+            new_node.config.shut_down_duration = int(
+                node_cfg.get("shut_down_duration", defaults_config.get("node_shut_down_duration", 3))
+            )
 
         # 1.1 Create Node Sets
         for node_set_cfg in node_sets_cfg:
